@@ -1,4 +1,5 @@
 import NanoVerif.Proofs.Objective
+import NanoVerif.Proofs.Reduce
 /-!
   C09 — ML objectives equal their definitions for any thread count and batch size.
 
@@ -285,6 +286,34 @@ theorem grads_batch_independent {t : Nat} (L : Nat → Vector α t → α) (dL :
     (hv' : values0'.length = n) (hg' : vgrads0'.length = n) :
     gradsVGrad L dL o values0 vgrads0 n batch = gradsVGrad L dL o values0' vgrads0' n batch' := by
   rw [grads_eq_def L dL o values0 vgrads0 n batch hb hv hg, grads_eq_def L dL o values0' vgrads0' n batch' hb' hv' hg']
+
+/-! ### the reduction alone (`include/nano/core/reduce.h`), as run by the driver op `reduce sum` for explicit schedules -/
+
+/-- the `sum_reduce` of this model is the function the `reduce sum` correspondence op executes (`Model/Reduce.lean`) -/
+theorem sumReduce_eq_reduce_model {M : Type} (add : M → M → M) (divN : M → Nat → M) (n : Nat) (accs : List M) :
+    sumReduce add divN n accs = NanoVerif.Reduce.sumReduce add divN n accs := by
+  cases accs <;> rfl
+
+/-- `sum_reduce` over any number `≥ 1` of per-worker accumulators returns (the sum of ALL of them) / samples: no accumulator
+    is left out or folded in twice, whatever the number of workers -/
+theorem sumReduce_total {M : Type} [AddCommMonoid M] (divN : M → Nat → M) (n : Nat) (accs : List M) (h : accs ≠ []) :
+    sumReduce (· + ·) divN n accs = some (divN accs.sum n) := by
+  cases accs with
+  | nil => exact absurd rfl h
+  | cons a0 rest =>
+    show some (divN (rest.foldl (· + ·) a0) n) = some (divN (a0 :: rest).sum n)
+    rw [NanoVerif.Reduce.foldl_add_eq, List.sum_cons]
+
+/-- … and for every schedule (which worker processed which contributions, in which order): the reduced value is
+    (the sum of all contributions) / samples -/
+theorem sumReduce_schedule_total {M : Type} [AddCommMonoid M] (divN : M → Nat → M) (n : Nat) (sched : List (List M))
+    (hw : sched ≠ []) :
+    sumReduce (· + ·) divN n (sched.map (NanoVerif.Reduce.accumulate (· + ·) 0)) = some (divN (sched.map List.sum).sum n) := by
+  have hm : sched.map (NanoVerif.Reduce.accumulate (· + ·) (0 : M)) = sched.map List.sum :=
+    List.map_congr_left (fun x _ => NanoVerif.Reduce.accumulate_eq_sum x)
+  rw [sumReduce_total divN n _ (by simpa using hw), hm]
+
+example : sumReduce (· + ·) (fun (a : Nat) n => a / n) 2 [1, 2, 3, 4, 5, 6, 7] = some 14 := by decide
 
 /-! ### non-vacuity -/
 
